@@ -227,6 +227,10 @@ class XPathMap(XPathFunction):
         except KeyError:
             return []
 
+    @property
+    def arity(self) -> int:
+        return 1  # a map is a function item of arity 1
+
     def keys(self, context: ta.ContextType = None) -> MapKeysView:
         if self._map is None:
             self._map = self._evaluate(context)
